@@ -220,12 +220,13 @@ impl Screen {
             self.restore_cursor();
         }
 
-        if columns < self.columns {
-            for line in self.buffer.values_mut() {
-                for x in columns..self.columns {
-                    line.remove(&x);
-                }
-            }
+        // Forget everything stored outside the overlap of the old and the new
+        // screen, including cells that earlier edits left beyond the edges:
+        // it must not reappear when the screen grows again.
+        let (keep_lines, keep_columns) = (lines.min(self.lines), columns.min(self.columns));
+        self.buffer.retain(|y, _| *y < keep_lines);
+        for line in self.buffer.values_mut() {
+            line.retain(|x, _| *x < keep_columns);
         }
 
         (self.lines, self.columns) = (lines, columns);
